@@ -1,0 +1,62 @@
+//go:build verif
+
+package list
+
+// Contracts for contract-based deductive verification (read by /verif/govc). Comment-only.
+
+/*@
+-- Selection invariant (C19): the selected index is within range; with no items it is 0.
+pred ListInv(m *List) = 0 <= m.index && (len(m.items) == 0 ? m.index == 0 : m.index < len(m.items)) && 0 <= m.offset
+
+func (m *List) Down()
+  requires inv: ListInv(m)
+  ensures C19_inv: ListInv(m)
+  ensures C19_step: len(m.items) > 0 ==> m.index == min(len(m.items)-1, old(m.index)+1)
+  modifies m.index
+
+func (m *List) Up()
+  requires inv: ListInv(m)
+  ensures C19_inv: ListInv(m)
+  ensures C19_step: m.index == max(0, old(m.index)-1)
+  modifies m.index
+
+func (m *List) Home()
+  requires inv: ListInv(m)
+  ensures C19_inv: ListInv(m)
+  modifies m.index
+
+func (m *List) End()
+  requires inv: ListInv(m)
+  ensures C19_inv: ListInv(m)
+  ensures C19_last: len(m.items) > 0 ==> m.index == len(m.items)-1
+  modifies m.index
+
+func (m *List) PageDown(win vaxis.Window)
+  requires inv: ListInv(m)
+  requires h: win.Height >= 0
+  ensures C19_inv: ListInv(m)
+  modifies m.index
+
+func (m *List) PageUp(win vaxis.Window)
+  requires inv: ListInv(m)
+  requires h: win.Height >= 0
+  ensures C19_inv: ListInv(m)
+  modifies m.index
+
+func (m *List) SetItems(items []string)
+  requires inv: ListInv(m)
+  ensures C19_inv: ListInv(m)
+  ensures C19_items: len(m.items) == len(items)
+  modifies m.index, m.items
+
+-- Draw: never panics for any item count (including 0) and any window height (including 0 and negative);
+-- afterwards the selection is inside the viewport when there is one.
+func (m *List) Draw(win vaxis.Window)
+  requires inv: ListInv(m)
+  requires win: WinOK(win) && win.Vx != nil && ref(win.Vx.charCache) != 0
+  loop 1 invariant sel: m.index == old(m.index) && m.offset <= m.index && (win.Height > 0 ==> m.index < m.offset + win.Height) && ListInv(m)
+  loop 1 invariant win: WinOK(win)
+  ensures C19_inv: ListInv(m)
+  ensures C19_visible: (win.Height > 0 && len(m.items) > 0) ==> (m.offset <= m.index && m.index < m.offset + win.Height)
+  ensures C19_index: m.index == old(m.index)
+@*/
